@@ -210,8 +210,18 @@ class LSym:
             return z == (k == "modeq")
         raise ValueError(k)
     def is_bool(self, p):
-        lo, hi = self.ctx.interval(self.ctx.resolve(p))
-        return lo >= 0 and hi <= 1
+        p = self.ctx.resolve(p)
+        lo, hi = self.ctx.interval(p)
+        if lo >= 0 and hi <= 1: return True
+        # polynomial over 0/1 variables (e.g. hb - hb*x): exhaustive evaluation over its variables
+        vs = sorted(p.vars())
+        bs = [self.ctx.bounds.get(v) for v in vs]
+        if 0 < len(vs) <= 10 and all(b is not None and b[1] - b[0] <= 1 for b in bs):
+            import itertools
+            for vals in itertools.product(*[range(b[0], b[1] + 1) for b in bs]):
+                if p.eval(dict(zip(vs, vals))) not in (0, 1): return False
+            return True
+        return False
     def as_mask(self, p, w):
         """if p == m*(2^w-1) with boolean m, return m"""
         p = self.ctx.resolve(p)
@@ -383,7 +393,7 @@ class LSym:
         if self.is_bool(pa) and self.is_bool(pb): return pa * pb
         if self.is_bool(pa): return pa * self.ctx.bits(pb, 0, 1)
         if self.is_bool(pb): return pb * self.ctx.bits(pa, 0, 1)
-        raise Unsupported("and of two symbolic non-mask values")
+        raise Unsupported("and of two symbolic non-mask values %r, %r" % (pa, pb))
 
     def op_or(self, w, a, b, flags):
         pa, pb = self.P(a), self.P(b)
@@ -758,7 +768,12 @@ class LSym:
                 if self.steps > self.max_steps: raise Unsupported("step budget exceeded")
                 op = ins[0]
                 if op in _SIMPLE:
-                    _SIMPLE[op](self, env, ins); continue
+                    try:
+                        _SIMPLE[op](self, env, ins)
+                    except Unsupported as e:
+                        if " [in " not in str(e): raise Unsupported("%s [in %s: %s]" % (e, fn.name[-70:], str(ins)[:160]))
+                        raise
+                    continue
                 if op == "call":
                     _, dst, rty, callee, cargs, comment = ins
                     if callee[0] == "g": cname = callee[1]
